@@ -29,8 +29,9 @@ ASSUMPTIONS = [
     "request is made (between ticks); the state during the tick in which a command executes is not observed",
     "validity table: Start iff Stopped; Stop/Restart iff active (not Stopped, not Restarting); Pause iff active and "
     "not paused; Unpause iff active and paused; Hold iff active and not holding; Unhold iff active and holding",
-    "Restarting is legitimate only in a window opened by an accepted user Restart or a method-issued Restart that is "
-    "still pending (requests die when the run reaches Stopped), of at most 3 tick ends, followed by Stopped or Running",
+    "Restarting is legitimate only while a Restart command is in progress (resident in the engine's command registry) "
+    "after a Restart was accepted from the user or issued by the method at some earlier point of the history; the "
+    "window lasts at most 3 tick ends and is followed by Stopped or Running",
     "bounded progress (reading of 'Stop is valid/accepted'): after an accepted user Stop some tick end within the "
     "next 4 ticks shows Stopped (the Stopped phase of a Restart that overtakes the Stop counts)",
     "method-issued commands are issued with Engine.inject_code (same interpreter path as a method line) or by method "
@@ -131,6 +132,47 @@ def valid(cmd: str, st: str, paused: bool, holding: bool) -> bool:
             "Hold": active and not holding, "Unhold": active and holding}[cmd]
 
 
+_EXEC_SINK: list = [None]
+_probe_installed = [False]
+
+
+def _install_exec_probe():
+    """Recording wrapper around CommandManager._execute_command (delegates unchanged): which requests executed in a
+    tick and whether the run was started before/after each. Only used to *name the mechanism* of an alarm."""
+    if _probe_installed[0]:
+        return
+    _probe_installed[0] = True
+    import openpectus.engine.command_manager as CM
+    orig = CM.CommandManager._execute_command
+
+    def _execute_command(self, cmd_request):
+        sink = _EXEC_SINK[0]
+        if sink is None:
+            return orig(self, cmd_request)
+        rig, log = sink
+        before = rig.e._runstate_started
+        try:
+            return orig(self, cmd_request)
+        finally:
+            log.append((rig.k, cmd_request.name, str(cmd_request.source), before, rig.e._runstate_started))
+    _execute_command.__wrapped__ = orig  # type: ignore
+    CM.CommandManager._execute_command = _execute_command  # type: ignore
+
+
+def _ran_after_run_end(execlog, tick):
+    """A request began executing in `tick` on an engine whose run had been ended (started True -> False) by an
+    earlier request of the same command-manager pass. Returns (ender, late command) or None."""
+    ender = None
+    for (k, name, _src, before, after) in execlog:
+        if k != tick:
+            continue
+        if ender is not None and not before and name != "Start":
+            return ender, name
+        if before and not after:
+            ender = name
+    return None
+
+
 def check_case(case, res: Result, kind: str = "?"):
     from opv.rigs import engine_rig as R
     from openpectus.engine.engine_message_builder import EngineMessageBuilder
@@ -142,16 +184,16 @@ def check_case(case, res: Result, kind: str = "?"):
     rig = R.EngineRig(method, hooks=False)
     viol: list[tuple[str | None, str]] = []
     hist: list = []
+    execlog: list[tuple] = []            # (tick, command name, source, started_before, started_after)
+    _install_exec_probe()
+    _EXEC_SINK[0] = (rig, execlog)
     try:
         mb = EngineMessageBuilder(rig.e, "", False)
+        S = {"prev": "Stopped", "cur_id": None, "pending_restart": 0, "window": 0, "after_window": False,
+             "nonstopped": False}
         used_ids: list[str] = []          # run ids of earlier runs, in order
-        cur_id = None
-        pending_restart = 0
-        window = 0                        # consecutive tick ends showing Restarting
-        after_window = False              # previous tick end closed a Restarting window
         stop_deadlines: list[int] = []    # tick numbers by which Stopped must have been seen
         accepted_any = False
-        nonstopped_seen = False
         aborted = False
 
         def reported():
@@ -160,41 +202,44 @@ def check_case(case, res: Result, kind: str = "?"):
             return st, cs
 
         def after_tick():
-            nonlocal cur_id, pending_restart, window, after_window, nonstopped_seen
             st, cs = reported()
             rid = rig.e.tags["Run Id"].get_value()
             hist.append((rig.k, st, int(cs.is_running), int(cs.is_paused), int(cs.is_holding)))
             res.count("states_seen_" + st)
             if cs.is_running and cs.is_paused and cs.is_holding:
                 res.count("paused_and_holding_ticks")
-            # ---- rule 1: agreement
+            # ---- rule 1: agreement / Restarting window
             res.count("agree_checks")
             if st == "Restarting":
-                if window == 0:
+                if S["window"] == 0:
                     res.count("restart_windows")
-                    if pending_restart <= 0 and not method_restarts:
+                    if S["pending_restart"] <= 0 and not method_restarts:
                         viol.append(("C06.restarting_without_restart", f"tick {rig.k}: System State Restarting but no "
-                                     "accepted/method-issued Restart is pending"))
-                    pending_restart = max(0, pending_restart - 1)
-                window += 1
-                if window > 3:
-                    viol.append(("C06.restarting_window_too_long", f"tick {rig.k}: Restarting for {window} tick ends"))
+                                     "Restart was accepted from the user or issued by the method so far"))
+                    elif rig.e.registry.get_running_command("Restart") is None:
+                        viol.append(("C06.restarting_without_restart", f"tick {rig.k}: System State Restarting but no "
+                                     "Restart command is in progress"))
+                S["window"] += 1
+                if S["window"] > 3:
+                    viol.append(("C06.restarting_window_too_long",
+                                 f"tick {rig.k}: Restarting for {S['window']} tick ends"))
             else:
                 exp = derived_state(cs)
                 if st != exp:
                     flags = f"running={cs.is_running} paused={cs.is_paused} holding={cs.is_holding}"
                     viol.append((f"C06.tag_{st}_but_control_state_{exp}",
                                  f"tick {rig.k}: System State tag '{st}' but control state ({flags}) means '{exp}'"))
-                if window > 0:
+                if S["window"] > 0:
                     if st not in ("Stopped", "Running"):
                         viol.append(("C06.restart_window_ends_in_other_state",
                                      f"tick {rig.k}: Restarting window followed by '{st}'"))
-                    after_window = True
-                    window = 0
+                    S["after_window"] = True
+                    S["window"] = 0
                 else:
-                    if st == "Stopped" and not after_window:
-                        pending_restart = 0        # requests die with the run (new command manager / interpreter)
-                    after_window = False
+                    # NB: Restart requests are never forgotten here. A Restart cancelled by a Stop survives in
+                    # CommandManager.restart_request_pending and restarts the *next* run (seen on the unchanged tree;
+                    # that is C10's business - the tag then truthfully says Restarting during a real restart)
+                    S["after_window"] = False
             # ---- rule 3: run id
             res.count("runid_checks")
             empty = rid in (None, "")
@@ -202,16 +247,16 @@ def check_case(case, res: Result, kind: str = "?"):
                 viol.append(("C06.run_id_set_while_stopped", f"tick {rig.k}: Stopped but Run Id = {rid!r}"))
             if st != "Stopped" and empty:
                 viol.append(("C06.run_id_empty_while_active", f"tick {rig.k}: state {st} but Run Id empty"))
-            if not empty and rid != cur_id:
+            if not empty and rid != S["cur_id"]:
                 if rid in used_ids:
                     viol.append(("C06.run_id_reused", f"tick {rig.k}: Run Id {rid!r} was used by an earlier run"))
                 res.count("new_run_ids")
-            if cur_id is not None and rid != cur_id:
-                used_ids.append(cur_id)
-            cur_id = None if empty else rid
+            if S["cur_id"] is not None and rid != S["cur_id"]:
+                used_ids.append(S["cur_id"])
+            S["cur_id"] = None if empty else rid
             if st != "Stopped":
-                nonstopped_seen = True
-            # ---- bounded progress of accepted Stop
+                S["nonstopped"] = True
+            # ---- bounded progress of an accepted Stop
             if st == "Stopped":
                 if stop_deadlines:
                     res.count("stop_progress_checks", len(stop_deadlines))
@@ -220,48 +265,40 @@ def check_case(case, res: Result, kind: str = "?"):
                 for d in stop_deadlines:
                     if rig.k >= d:
                         viol.append(("C06.accepted_stop_not_stopped_in_4_ticks",
-                                     f"tick {rig.k}: user Stop accepted at tick {d - 4} but no Stopped tick end since"))
+                                     f"tick {rig.k}: user Stop accepted before tick {d - 3} but no tick end has shown "
+                                     "Stopped since"))
                 stop_deadlines[:] = [d for d in stop_deadlines if rig.k < d]
-
-        def do_tick():
-            nonlocal aborted
-            rig.tick(catch=True)
-            if rig.tick_exc:
-                res.count("tick_exceptions")
-                aborted = True
-                return
-            after_tick()
+            S["prev"] = st
 
         steps = [(s, bool(m)) for s, m in zip(seq, mask)] + [("tick", True)] * SETTLE
         for sym, tick_after in steps:
-            if aborted:
-                break
             st, cs = reported()
             if sym.startswith("u:"):
                 cmd = sym[2:]
                 ok = rig.user(cmd)
                 v = valid(cmd, st, cs.is_paused, cs.is_holding)
                 res.count("gating_accepted" if ok else "gating_rejected")
+                hist.append((rig.k, "req", cmd, ok))
                 if ok != v:
                     flags = f"paused={cs.is_paused} holding={cs.is_holding}"
                     what = "accepted_while_invalid" if ok else "rejected_while_valid"
                     viol.append((f"C06.{cmd}_{what}",
                                  f"before tick {rig.k + 1}: user {cmd} {'accepted' if ok else 'rejected'} in reported "
                                  f"state '{st}' ({flags}) where it is {'valid' if v else 'not valid'}"))
+                    break
                 if ok:
                     accepted_any = True
                     if cmd == "Restart":
-                        pending_restart += 1
+                        S["pending_restart"] += 1
                     if cmd == "Stop":
                         stop_deadlines.append(rig.k + 4)
-                hist.append((rig.k, "req", cmd, ok))
             elif sym.startswith("i:"):
                 code = sym[2:]
                 try:
                     rig.e.inject_code(code)
                     res.count("injections")
                     if code == "Restart":
-                        pending_restart += 1
+                        S["pending_restart"] += 1
                 except Exception as ex:  # inject_code put the engine into its error state; not a C06 input any more
                     res.count("inject_raised")
                     res.notes.append(f"inject_code({code!r}) raised {type(ex).__name__}")
@@ -269,25 +306,41 @@ def check_case(case, res: Result, kind: str = "?"):
                     break
                 hist.append((rig.k, "inj", code))
             if tick_after or sym == "tick":
-                do_tick()
-        if not aborted and stop_deadlines and rig.k < min(stop_deadlines):
-            res.count("stop_progress_open_at_end")
+                rig.tick(catch=True)
+                if rig.tick_exc:
+                    res.count("tick_exceptions")
+                    res.notes.append("Engine.tick raised: " + rig.tick_exc[0][1][:120])
+                    aborted = True
+                    break
+                after_tick()
+                if viol:
+                    # the state machine is broken from here on; later alarms of this case would be consequences
+                    late = _ran_after_run_end(execlog, rig.k)
+                    if late is not None:
+                        ender, name = late
+                        viol[:] = [("C06.command_executes_after_run_ended_in_same_tick",
+                                    m + f" [in this tick {ender} ended the run and the request {name} behind it in the "
+                                    "executing list still ran on the stopped engine]") for (_k, m) in viol]
+                    break
         if aborted:
             res.count("cases_aborted")
+        if viol:
+            res.count("cases_cut_at_first_alarm")
         key = None
-        if accepted_any and nonstopped_seen and not aborted:
+        if accepted_any and S["nonstopped"] and not aborted:
             key = {"m": method, "s": seq, "k": case.get("mask")}
         res.count("cases_" + kind)
         res.case(key, sample={"method": method, "seq": seq, "mask": case.get("mask"),
                               "states": [h[1] for h in hist if len(h) == 5]})
     finally:
+        _EXEC_SINK[0] = None
         rig.close()
     seen = set()
     for mech, msg in viol:
-        if mech in seen:
+        if (mech, msg) in seen:
             continue
-        seen.add(mech)
-        res.violation(mech, msg + " | history " + str(hist[-14:]), case)
+        seen.add((mech, msg))
+        res.violation(mech, msg + " | history " + str(hist[-16:]), case)
 
 
 def run_shard(spec):
